@@ -5,6 +5,7 @@
 -/
 import CxxModel.Theorems.FnDecl
 import CxxModel.Props.C13
+import CxxModel.Theorems.FnGen
 namespace Cxx
 open P
 
@@ -100,6 +101,140 @@ theorem declarator_function_body (env : Env) (F D : Nat) (pt : DType) (location 
   · show w8.anon = _; rw [hs8.anon, hs7.anon]; exact hsl6.anon
   · show w8.nextId = _; rw [hs8.nextId, hs7.nextId]; exact hsl6.nextId
   · show w8.mainTok = _; rw [hs8.mainTok, hs7.mainTok]; exact hsl6.mainTok
+
+
+/-! ### through `_parse_declarations` and `parse()`'s loop, over any return-type specifier and any decoded parameter list -/
+
+theorem parseDeclarations_function_body_gen (env : Env) (F D : Nat) (tok : CTok) (doxygen : Option String)
+    (toks : List Tok) (f : Tok) (trest : List Tok) (segs : List PQSeg) (cst vol : Bool) (ops : List Tok) (x op : Tok) (plist : List Param) (ob : Tok) (content : List Tok) (cb : Tok) (d1 : DType) (w : World) (b0 bmid bx bo bc bb b' : Buf)
+    (blk : Block) (rest : List Block) (hstack : w.stack = blk :: rest) (hk : blk.hdr.kind ≠ .cls)
+    (hmu : w.muted = false) (hfa : ¬ env.faultAt = some w.delivered)
+    (hspec : TypeSpecR env (F + 1) (D + 1 + 1) toks segs cst vol) (htoks : toks = f :: trest)
+    (hty : tok.type = f.type) (htv : tok.value = f.value)
+    (hy0 : Yields env.cfg w.buf trest b0)
+    (hops : opsHeadOk ops = true) (hopsv : ∀ o ∈ ops, o.value ≠ "auto")
+    (hy : Yields env.cfg b0 ops bmid)
+    (ha : applyPtrOps (.type (.mk segs none false) cst vol) (ops.map (·.type)) = some d1)
+    (htx : tokenEofOk env.cfg bmid = .ok (some x, bx)) (hx : x.type = "NAME") (hxv : identVal x.value = true)
+    (hto : tokenEofOk env.cfg bx = .ok (some op, bo)) (hop : op.type = "(")
+    (hparams : ∀ W : World, W.buf = bo → ∃ w7, interp env (parseParametersStep (F + 1) (core (F + 1) (D + 1 + 1 + 1)) true) W = (w7, .ok (plist, false, [])) ∧
+      SameButLog W w7 ∧ w7.buf = bc)
+    (htb : tokenEofOk env.cfg bc = .ok (some ob, bb)) (hob : ob.type = "{")
+    (hbal : Balanced "{" "}" content) (hcb : cb.type = "}") (hyb : Yields env.cfg bb (content ++ [cb]) b')
+    (hF : ops.length + 2 ≤ F + 1) (hFb : content.length + 1 ≤ F) :
+    ∃ (w7 : World) (ev : Event),
+      interp env (parseDeclarations (F + 1) (core (F + 1) (D + 1 + 1 + 1 + 1)) tok doxygen) w = (w7, .ok ()) ∧
+      w7.buf = b' ∧ w7.stack = { blk with loc := .tok tok.sidx } :: rest ∧
+      w7.events = w.events ++ [ev] ∧ ev.kind = .item (.function { plainFunction x d1 doxygen with
+        parameters := plist, hasBody := true }) ∧
+      ev.stateId = blk.id ∧ ev.parentId = rest.head?.map (·.id) ∧
+      w7.delivered = w.delivered + 1 ∧ w7.anon = w.anon ∧ w7.muted = false ∧ w7.nextId = w.nextId ∧
+      w7.mainTok = w.mainTok := by
+  have hxauto : x.value ≠ "auto" := by
+    have := hxv
+    simp only [identVal, Bool.and_eq_true, Bool.not_eq_true', bne_iff_ne, ne_eq] at this
+    exact this.2
+  -- the token after the type name: the first pointer operator, or the name
+  obtain ⟨nx, bnx, hnx, hnxstop, hnxauto⟩ : ∃ (nx : Tok) (bnx : Buf), tokenEofOk env.cfg b0 = .ok (some nx, bnx) ∧
+      declStart nx.type = true ∧ nx.value ≠ "auto" := by
+    cases ops with
+    | nil =>
+      cases hy
+      exact ⟨x, bx, htx, by rw [hx]; decide, hxauto⟩
+    | cons o os =>
+      cases hy with
+      | cons hto _ =>
+        have ho : o.type = "*" := by simpa [opsHeadOk] using hops
+        exact ⟨o, _, hto, by rw [ho]; decide, hopsv o (by simp)⟩
+  obtain ⟨w1, t1, hi1, hs1, ht1, hty1, hv1⟩ := hspec true tok f trest w b0 bnx nx htoks hty htv hy0 hnx hnxstop
+  obtain ⟨w2, t2, hi2, hs2, ht2, hty2, hv2⟩ := step_tokenIfP_miss env (fun t => ["auto"].contains t.value) w1 t1 bnx ht1
+    (by intro c _ hcv; show ["auto"].contains c.value = false; rw [hcv, hv1]; simp [hnxauto])
+  have hsl2 : SameButLog w w2 := hs1.trans hs2.butLog
+  have htop2 := interp_getTop env w2 blk rest (by rw [hsl2.stack]; exact hstack)
+  -- the stream seen by the declarator loop: the pushed-back copy of `nx`, then as given
+  obtain ⟨ops', x', bmid', hy', hmapeq, hlen, htx', hx', hxv'⟩ : ∃ (ops' : List Tok) (x' : Tok) (bmid' : Buf),
+      Yields env.cfg w2.buf ops' bmid' ∧ ops'.map (·.type) = ops.map (·.type) ∧ ops'.length = ops.length ∧
+      tokenEofOk env.cfg bmid' = .ok (some x', bx) ∧ x'.type = "NAME" ∧ x'.value = x.value := by
+    cases ops with
+    | nil =>
+      cases hy
+      rw [htx] at hnx
+      injection hnx with hnx; injection hnx with h1 h2
+      injection h1 with h1
+      subst h1; subst h2
+      exact ⟨[], t2, w2.buf, .nil _, rfl, rfl, ht2, by rw [hty2, hty1, hx], by rw [hv2, hv1]⟩
+    | cons o os =>
+      cases hy with
+      | cons hto hrest =>
+        rw [hto] at hnx
+        injection hnx with hnx; injection hnx with h1 h2
+        injection h1 with h1
+        subst h1; subst h2
+        exact ⟨t2 :: os, x, bmid, .cons ht2 hrest, by simp [hty2, hty1], by simp, htx, hx, rfl⟩
+  obtain ⟨w7, ev, hi7, hsig, hst7, hev7, hk7, hid7, hpar7, hdl7, han7, hmu7, hnx7, hmt7⟩ :=
+    declarator_function_body env F (D + 1 + 1 + 1) _ (.tok tok.sidx) doxygen ops' x' op ob content cb
+      plist d1 w2 bmid' bx bo bc bb b' blk rest
+      (by rw [hsl2.stack]; exact hstack) hk (by rw [hsl2.muted]; exact hmu) (by rw [hsl2.delivered]; exact hfa) rfl hy'
+      (by rw [hmapeq]; exact ha) htx' hx' (by rw [hxv']; exact hxv) hto hop
+      hparams
+      htb hob hbal hcb hyb (by rw [hlen]; omega) hFb
+  refine ⟨w7, ev, ?_, hsig, hst7, by rw [hev7, hsl2.events], ?_, hid7, hpar7, by rw [hdl7, hsl2.delivered],
+    by rw [han7, hsl2.anon], hmu7, by rw [hnx7, hsl2.nextId], by rw [hmt7, hsl2.mainTok]⟩
+  · unfold parseDeclarations
+    simp only [bind, interp_bind, core_parseType, hi1, Option.bind, typenameOf, strTruthy, PQName.classkey, Bool.false_eq_true, ↓reduceIte, pure, interp, Bool.not_false,
+      P.tokenIfVal, hi2, htop2, validate_empty]
+    rw [loopN]
+    simp only [bind, interp_bind, hi7, pure, interp]
+  · rw [hk7]
+    simp only [plainFunction, hxv']
+
+
+theorem toplevel_function_body_gen (env : Env) (hp : RulesProgress env.cfg = true) (F D : Nat) (w : World)
+    (toks : List Tok) (first : Tok) (trest : List Tok) (segs : List PQSeg) (cst vol : Bool) (ops : List Tok) (x op : Tok) (plist : List Param) (ob : Tok) (content : List Tok) (cb : Tok) (d1 : DType) (b1 b0 bmid bx bo bc bb b' : Buf)
+    (blk : Block) (rest : List Block) (hstack : w.stack = blk :: rest) (hk : blk.hdr.kind ≠ .cls)
+    (hmu : w.muted = false) (hfa : ¬ env.faultAt = some w.delivered)
+    (hspec : TypeSpecR env (F + 1) (D + 1 + 1) toks segs cst vol) (htoks : toks = first :: trest) (hfirst : specFirst first.type = true)
+    (htok : tokenEofOk env.cfg w.buf = .ok (some first, b1))
+    (hy0 : Yields env.cfg b1 trest b0)
+    (hops : opsHeadOk ops = true) (hopsv : ∀ o ∈ ops, o.value ≠ "auto")
+    (hy : Yields env.cfg b0 ops bmid)
+    (ha : applyPtrOps (.type (.mk segs none false) cst vol) (ops.map (·.type)) = some d1)
+    (htx : tokenEofOk env.cfg bmid = .ok (some x, bx)) (hx : x.type = "NAME") (hxv : identVal x.value = true)
+    (hto : tokenEofOk env.cfg bx = .ok (some op, bo)) (hop : op.type = "(")
+    (hparams : ∀ W : World, W.buf = bo → ∃ w7, interp env (parseParametersStep (F + 1) (core (F + 1) (D + 1 + 1 + 1)) true) W = (w7, .ok (plist, false, [])) ∧
+      SameButLog W w7 ∧ w7.buf = bc)
+    (htb : tokenEofOk env.cfg bc = .ok (some ob, bb)) (hob : ob.type = "{")
+    (hbal : Balanced "{" "}" content) (hcb : cb.type = "}") (hyb : Yields env.cfg bb (content ++ [cb]) b')
+    (hF : ops.length + 2 ≤ F + 1) (hFb : content.length + 1 ≤ F) :
+    ∃ (d : Option String) (bD : Buf) (w7 : World) (ct : CTok) (ev : Event),
+      getDoxygen env.cfg env.mcRe w.buf = .ok (d, bD) ∧
+      interp env (mainBody (F + 1) (core (F + 1) (D + 1 + 1 + 1 + 1)) none) w = (w7, .ok (.inl none)) ∧
+      w7.buf = b' ∧ ct.value = first.value ∧ w7.stack = { blk with loc := .tok ct.sidx } :: rest ∧
+      w7.events = w.events ++ [ev] ∧ ev.kind = .item (.function { plainFunction x d1 d with
+        parameters := plist, hasBody := true }) ∧
+      ev.stateId = blk.id ∧ ev.parentId = rest.head?.map (·.id) ∧
+      w7.delivered = w.delivered + 1 ∧ w7.anon = w.anon ∧ w7.muted = false ∧ w7.nextId = w.nextId := by
+  obtain ⟨d, bD, wA, ct, hd, hsA, hbA, htyc, hv, hi⟩ := mainBody_item env hp (F + 1) (core (F + 1) (D + 1 + 1 + 1 + 1)) w first b1 htok
+  obtain ⟨w7, ev, hi7, hsig, hst7, hev7, hk7, hid7, hpar7, hdl7, han7, hmu7, hnx7, _⟩ :=
+    parseDeclarations_function_body_gen env F D ct d toks first trest segs cst vol ops x op plist ob content cb d1 { wA with mainTok := some ct } b0 bmid bx bo bc bb b' blk rest
+      (by show wA.stack = _; rw [hsA.stack]; exact hstack) hk (by show wA.muted = _; rw [hsA.muted]; exact hmu)
+      (by show ¬ env.faultAt = some wA.delivered; rw [hsA.delivered]; exact hfa) hspec htoks htyc hv
+      (by show Yields env.cfg wA.buf _ _; rw [hbA]; exact hy0) hops hopsv hy ha htx hx hxv hto hop hparams htb hob hbal hcb hyb hF hFb
+  refine ⟨d, bD, w7, ct, ev, hd, ?_, hsig, hv, hst7, by rw [hev7]; show wA.events ++ _ = _; rw [hsA.events], hk7, hid7, hpar7,
+    by rw [hdl7]; show wA.delivered + 1 = _; rw [hsA.delivered], by rw [han7]; exact hsA.anon, hmu7,
+    by rw [hnx7]; exact hsA.nextId⟩
+  rw [hi]
+  unfold specFirst at hfirst
+  simp only [Bool.and_eq_true, Option.isNone_iff_eq_none, Bool.not_eq_true'] at hfirst
+  have hti : topItem (F + 1) (core (F + 1) (D + 1 + 1 + 1 + 1)) ct d = parseDeclarations (F + 1) (core (F + 1) (D + 1 + 1 + 1 + 1)) ct d := by
+    unfold topItem
+    rw [htyc, hfirst.1]
+  have hcar : carry ct d = none := by
+    unfold carry
+    rw [htyc, hfirst.2]
+    rfl
+  rw [hti, hi7, hcar]
+
 
 
 end Cxx
